@@ -1,8 +1,8 @@
 #!/bin/bash
-# usage: confirm_seeded.sh <prop> <variant>   e.g. C05 A
+# usage: confirm_seeded.sh <prop> <variant> [root=/tmp/mut] [seeded id=<prop>-<variant>]   e.g. C05 A
 # Independently confirms a seeded change from /tmp/mut/<prop>/out in the scratch worktree /tmp/confirm:
 #  clean tree: demo PASS;  patched: builds, repo test-suite passes, demo FAIL.  On success copies it to /verif/seeded/<prop>-<variant>/
-p=$1; v=$2; src=/tmp/mut/$p/out; wt=/tmp/confirm
+p=$1; v=$2; root=${3:-/tmp/mut}; sid=${4:-$p-$v}; src=$root/$p/out; wt=/tmp/confirm
 [ -d $wt ] || git -C /repo worktree add -q --detach $wt HEAD
 cd $wt && git checkout -q -- . && rm -rf out _b && mkdir out && cp $src/*_$v.* out/ 2>/dev/null
 run_demo() {
@@ -21,7 +21,7 @@ ok=no
 if [ "$rc_clean" = "0" ] && [ "$rc_mut" != "0" ] && [ "$tests" = "All tests were successful" ]; then ok=yes; fi
 echo "$p $v: clean demo rc=$rc_clean ($clean_tail) | patched: tests='$tests' demo rc=$rc_mut ($mut_tail) => confirmed=$ok"
 if [ $ok = yes ]; then
-  d=/verif/seeded/$p-$v; mkdir -p $d
+  d=/verif/seeded/$sid; mkdir -p $d
   cp out/patch_$v.diff $d/patch.diff
   for f in out/demo_$v.*; do cp $f $d/; done
   cp out/meta_$v.json $d/agent_meta.json 2>/dev/null
